@@ -64,7 +64,9 @@ func (g *GoFakeS3) routeBase(w http.ResponseWriter, r *http.Request) {
 	} else if _, ok := query["uploads"]; ok {
 		err = g.routeMultipartUploadBase(bucket, object, w, r)
 
-	} else if _, ok := query["versioning"]; ok {
+	} else if _, ok := query["versioning"]; ok && object == "" {
+		// (versioning is a property of the bucket: with an object in the path
+		// the request is one on that object and must not reconfigure the bucket)
 		err = g.routeVersioning(bucket, w, r)
 
 	} else if _, ok := query["versions"]; ok {
